@@ -260,8 +260,14 @@ def lorenz_instance(n, frac, weight=0.999):
                                *([sp.ge(cum[m], tot * frac)] if m < n else []))
                 thr = P[perm[m - 1]]          # the weakest of those strongest points
                 body = [sp.and_(sp.implies(sp.gt(P[i], thr), sp.eq(g[0, i], hi)), sp.implies(sp.le(P[i], thr), sp.eq(g[0, i], lo))) for i in range(n)]
-                alts.append(sp.implies(cond, sp.and_(*body)))
-        yield 'high-level-exactly-stronger-than-weakest-of-the-strongest', sp.and_(*alts)
+                alts.append((''.join(map(str, perm)), m, sp.implies(cond, sp.and_(*body))))
+        if n <= 3:
+            yield 'high-level-exactly-stronger-than-weakest-of-the-strongest', sp.and_(*[a[2] for a in alts])
+        else:
+            # one obligation per (order of the powers, number of strongest points): each is decided against the path
+            # condition on its own (mostly by the linear abstraction), which the monolithic conjunction is not within budget
+            for pn, m, f in alts:
+                yield 'high-level-exactly-stronger-than-weakest-of-the-strongest[order%s,m%d]' % (pn, m), f
 
     return Instance('C18', MM + 'lorenz_mask', 'n%d-frac%g' % (n, frac), make, call, ensures, timeout=40.0, max_paths=500, crosscheck=False, shard_depth=2, weight=50,
                     check_feasible=False)
